@@ -1,8 +1,9 @@
 package main
 
 import (
-	"encoding/json"
+	"encoding/hex"
 	"fmt"
+	"reflect"
 	"sort"
 	"strconv"
 	"strings"
@@ -87,30 +88,38 @@ func leaves(ev *aucoalesce.Event) map[string]bool {
 	// ECS hold derived COPIES and must not hide a value that was dropped from its home.
 	view := map[string]interface{}{"data": ev.Data, "paths": ev.Paths, "process": ev.Process, "user_ids": ev.User.IDs, "user_selinux": ev.User.SELinux,
 		"result": ev.Result, "session": ev.Session, "tags": ev.Tags, "source": ev.Source, "destination": ev.Dest, "file": ev.File}
-	b, err := json.Marshal(view)
-	if err != nil {
-		return out
-	}
-	var v interface{}
-	_ = json.Unmarshal(b, &v)
-	var walk func(x interface{})
-	walk = func(x interface{}) {
-		switch t := x.(type) {
-		case map[string]interface{}:
-			for _, y := range t {
-				walk(y)
+	// a reflective walk, not a JSON round trip: JSON cannot carry text that is not valid UTF-8
+	// (file names in legacy encodings) and would hide or invent differences there
+	var walk func(x reflect.Value)
+	walk = func(x reflect.Value) {
+		switch x.Kind() {
+		case reflect.Interface, reflect.Ptr:
+			if !x.IsNil() {
+				walk(x.Elem())
 			}
-		case []interface{}:
-			for _, y := range t {
-				walk(y)
+		case reflect.Map:
+			for _, k := range x.MapKeys() {
+				walk(x.MapIndex(k))
 			}
-		case string:
-			out[t] = true
-		case float64:
-			out[fmt.Sprint(t)] = true
+		case reflect.Slice, reflect.Array:
+			for i := 0; i < x.Len(); i++ {
+				walk(x.Index(i))
+			}
+		case reflect.Struct:
+			for i := 0; i < x.NumField(); i++ {
+				if x.Type().Field(i).IsExported() {
+					walk(x.Field(i))
+				}
+			}
+		case reflect.String:
+			out[x.String()] = true
+		case reflect.Int, reflect.Int8, reflect.Int16, reflect.Int32, reflect.Int64:
+			out[fmt.Sprint(x.Int())] = true
+		case reflect.Uint, reflect.Uint8, reflect.Uint16, reflect.Uint32, reflect.Uint64:
+			out[fmt.Sprint(x.Uint())] = true
 		}
 	}
-	walk(v)
+	walk(reflect.ValueOf(view))
 	return out
 }
 
@@ -432,7 +441,110 @@ func c09Singles(c *enumx.Ctx) {
 	}
 }
 
+// (e) the same auxiliary record type two and three times in one compound event (signals to a
+// process group produce several OBJ_PID records, renames several PATHs, ...), for EVERY record
+// type: whatever a later copy says is in the event or named by a warning.
+func c09Repeats(c *enumx.Ctx) {
+	for typ := 0; typ < 65536; typ++ {
+		if !c.Mine() {
+			continue
+		}
+		switch typ {
+		case 1300, 1320, 1309, 1306, 1327, 1326:
+			continue // need their own shapes (SYSCALL itself, EOE, EXECVE, SOCKADDR, PROCTITLE, SECCOMP)
+		}
+		name := auparse.AuditMessageType(typ).String()
+		for _, copies := range []int{2, 3} {
+			for _, first := range []bool{false, true} {
+				t := &tagger{numeric: typ%2 == 1}
+				sc := syscallRec(t, 62 /*kill*/, "")
+				var aux []recDesc
+				for i := 0; i < copies; i++ {
+					aux = append(aux, recDesc{name, fmt.Sprintf("opid=%s oauid=%s ouid=%s oses=%s obj=%s:%s:%s:s0 ocomm=\"%s\" xk%d=%s", t.v(), t.v(), t.v(), t.v(), t.v(), t.v(), t.v(), t.v(), i, t.v())})
+				}
+				var rs []recDesc
+				if first {
+					rs = append(append([]recDesc{aux[0], sc}, aux[1:]...))
+				} else {
+					rs = append([]recDesc{sc}, aux...)
+				}
+				desc := fmt.Sprintf("SYSCALL(kill) with %d %s records (aux first: %v)", copies, name, first)
+				c.Begin(func() string { return desc })
+				c.Try("C09", func() {
+					msgs, ok := parseAll(c, rs)
+					if !ok {
+						return
+					}
+					ev, err := aucoalesce.CoalesceMessages(msgs)
+					if err != nil || ev == nil {
+						c.Report("C09 coalesce-error", fmt.Sprintf("%s: (%v, %v)", desc, ev, err), nil)
+						return
+					}
+					a := identity(c, "C09", msgs[0], ev, desc)
+					b := containment(c, "C09", rs, ev, desc)
+					if a && b {
+						c.Nontrivial()
+					}
+				})
+			}
+		}
+	}
+	c.Sample("SYSCALL(kill) + OBJ_PID + OBJ_PID => the second target's opid/ocomm are in the event or a warning names them")
+}
+
+// (f) file names, working directories and executables that are not plain ASCII: the kernel hex-encodes
+// them; the File block mirrors the selected PATH's name byte for byte (legacy encodings are not
+// valid UTF-8), and every value is still somewhere in the event.
+func c09Names(c *enumx.Ctx) {
+	hx := func(s string) string { return strings.ToUpper(hex.EncodeToString([]byte(s))) }
+	for _, r := range enumx.HostileRunes {
+		for _, shape := range []string{"%s", "a%sb", "%s%s", "dir%s/f%s"} {
+			for _, nr := range []int{2 /*open*/, 87 /*unlink*/, 59 /*execve*/} {
+				if !c.Mine() {
+					continue
+				}
+				t := &tagger{}
+				nm := "/p/" + t.v() + strings.ReplaceAll(shape, "%s", r)
+				ino := "ino" + t.v()
+				p := recDesc{"PATH", fmt.Sprintf("item=0 name=%s inode=%s dev=%s mode=0100644 ouid=%s ogid=%s rdev=%s nametype=NORMAL", hx(nm), ino, t.v(), t.v(), t.v(), t.v())}
+				rs := []recDesc{syscallRec(t, nr, ""), {"CWD", "cwd=" + hx("/c/"+t.v()+r)}, p}
+				desc := fmt.Sprintf("syscall %d on a file named %q", nr, nm)
+				c.Begin(func() string { return desc })
+				c.Try("C09", func() {
+					msgs, ok := parseAll(c, rs)
+					if !ok {
+						return
+					}
+					pd, err := msgs[2].Data()
+					if err != nil || pd["name"] != nm {
+						return // the parser's business (C12)
+					}
+					ev, err := aucoalesce.CoalesceMessages(msgs)
+					if err != nil || ev == nil {
+						c.Report("C09 coalesce-error", fmt.Sprintf("%s: (%v, %v)", desc, ev, err), nil)
+						return
+					}
+					good := identity(c, "C09", msgs[0], ev, desc)
+					if ev.File != nil && (ev.File.Path != nm || ev.File.Inode != ino) {
+						c.Report("C09 file-block-mirror", fmt.Sprintf("%s: File.Path=%q Inode=%q does not mirror the selected PATH record (name %q inode %q)", desc, ev.File.Path, ev.File.Inode, nm, ino), nil)
+						good = false
+					}
+					if !containment(c, "C09", rs, ev, desc) {
+						good = false
+					}
+					if good {
+						c.Nontrivial()
+					}
+				})
+			}
+		}
+	}
+	c.Sample("open of a file whose name is Latin-1 (hex-encoded by the kernel) => File.Path holds the same bytes")
+}
+
 func init() {
+	gens["c09-repeats"] = c09Repeats
+	gens["c09-names"] = c09Names
 	gens["c09-modes"] = c09Modes
 	gens["c09-groups"] = c09Groups
 	gens["c09-singles"] = c09Singles
